@@ -56,6 +56,8 @@ def lit(v):
     """structured operand -> Klong literal text.  v: int | ["c",ch] | ["s",str] | ["l",items...] | ["d",[k,v]...]"""
     if isinstance(v, int):
         return str(v)
+    if isinstance(v, float):
+        return repr(v)
     t = v[0]
     if t == "c":
         return "0c" + v[1]
@@ -71,7 +73,7 @@ def lit(v):
 def top(v):
     """literal text usable as an operand in an expression (a negative number literal needs parentheses)"""
     s = lit(v)
-    return "(" + s + ")" if isinstance(v, int) and v < 0 else s
+    return "(" + s + ")" if isinstance(v, (int, float)) and v < 0 else s
 
 
 # ------------------------------------------------------------------ verbs
@@ -104,6 +106,7 @@ MONADS = {
     "Lflat": ("{,/x}", "{,/x}(p)"),
     "proj": ("{x+y}(1;)", "pm(p)"),
     "named": ("fm", "fm(p)"),                      # fm::{(x*3)+1}
+    "Lnewton": ("{(x+2%x)%2}", "{(x+2%x)%2}(p)"),  # the reference's own Converge example (square root of 2)
     "py": ("pym", "pym(p)"),                       # Python callable, logs its calls
     "pycap": ("pycap", "pycap(p)"),                # Python callable with a fixpoint (converges), logs its calls
 }
@@ -211,10 +214,8 @@ def elems(a):
 
 
 def pair(i, x):
-    r = np.empty(2, dtype=object)
-    r[0] = i
-    r[1] = x
-    return r
+    """the list [i;x] as the interpreter represents it"""
+    return WORLD.k._backend.kg_asarray([i, x])
 
 
 def truth(v):
@@ -228,14 +229,30 @@ def truth(v):
 
 
 def same(x, y):
-    """fixpoint test of Converge on exact values: equality of canonical forms, as strict as Klong's Match on exact
-    values (a list of characters and a string are different values there); reals are excluded by the generators"""
-    cx, cy = canon(x), canon(y)
-    if cx == cy:
+    """the fixpoint test f(x) = x of Converge / Scan-Converging: Klong's Match (x~y), evaluated separately"""
+    w = WORLD
+    w.tick()
+    w.k["p"] = x
+    w.k["q"] = y
+    r = canon(w.k("p~q"))
+    if r == ["i", 1]:
         return True
-    # a character equals the one-character string of it (Python str equality inside kg_equal)
-    one = lambda c: c[0] in ("c", "s") and len(c) == 2
-    return one(cx) and one(cy) and cx[1] == cy[1]
+    if r == ["i", 0]:
+        return False
+    raise Outside("Match did not answer 0/1")
+
+
+def pairable(a):
+    """Each-2 of an atom with a list (the reference is silent; DOMAIN DECISION, the specification follows the
+    implementation): a character is the one-character string of it, a dictionary stands for its keys, a number
+    (or any other atom) cannot be paired: error"""
+    if is_str(a) or is_listy(a):
+        return elems(a)
+    if type(a).__name__ == "KGChar":
+        return [a]
+    if isinstance(a, dict):
+        return list(a.keys())
+    raise TypeError("each-2: an atom that is not a character cannot be paired with a list")
 
 
 def expansion(w, adv, vid, a, left=None):
@@ -257,9 +274,7 @@ def expansion(w, adv, vid, a, left=None):
             return []
         if is_atom(a) and is_atom(b):
             return f2(a, b)
-        if is_atom(a) or is_atom(b):
-            raise Outside("each-2 of an atom and a list")
-        return [f2(x, y) for x, y in zip(elems(a), elems(b))]
+        return [f2(x, y) for x, y in zip(pairable(a), pairable(b))]
     if adv in ("eachleft", "eachright"):
         b = a
         a = left
@@ -278,7 +293,8 @@ def expansion(w, adv, vid, a, left=None):
         if is_atom(a):
             if is_str(a) or is_listy(a):
                 return a
-            raise Outside("each-index of an atom")
+            # DOMAIN DECISION (reference silent): an atom is its own only member, index 0
+            return f1(w.k._backend.kg_asarray([0, a]))
         return [f1(pair(i, x)) for i, x in enumerate(elems(a))]
     if adv == "over":
         if is_atom(a):
@@ -363,7 +379,9 @@ def norm(c):
        - a rectangular all-numeric list containing a real is all real (NumPy homogenisation, a C01 matter)."""
     if not isinstance(c, list):
         return c
-    t = c[0]
+    t = c[0] if c else None
+    if t == "r" and isinstance(c[1], int) and (c[1] >> 52) & 0x7FF == 0x7FF and c[1] & ((1 << 52) - 1):
+        return ["r", "nan"]
     if t == "s":
         return ["l"] + [["c", x] for x in c[1:]]
     if t == "l":
@@ -500,7 +518,7 @@ def generic_monadic(w, adv, f1, a):
         if is_atom(a):
             if is_str(a) or is_listy(a):
                 return a
-            raise Outside("each-index of an atom")
+            return f(w.k._backend.kg_asarray([0, a]))
         return [f(pair(i, x)) for i, x in enumerate(elems(a))]
     if adv == "converge":
         x = f(a)
